@@ -635,13 +635,18 @@ func (ef *effectFacts) guardedByMutex(in ssa.Instruction) bool {
 	return false
 }
 
+// writers of process-global state that are NOT reachable from compile/invoke (one symbol each; re-checked against the call graph).
+var effect2Unreachable = map[string]string{
+	"parser/ast.init$1$1": "node-label counter of the Graphviz visualiser ast.Dot, a debugging utility outside the compile/invoke API that C14 quantifies over",
+}
+
 func ruleEffect2(c *Ctx) {
 	c.R.Rule("EFFECT-2", 2, "no process-global state is written during compile or invoke: every in-place write (store, map update, append, copy, sort) in a function reachable from the run/compile entries whose target is a package-level variable, a variable captured by an init-time closure, or a value that can be one (through a field or a function result) is guarded by a package-level mutex, is an atomic operation, or is in the frozen table with a machine-checked side condition; reads of mutex-guarded globals are guarded too")
 	ef := c.effects()
 	guardedGlobals := map[types.Object]bool{}
 	n := 0
 	for _, f := range ef.funcs {
-		if !ef.reach[f] || ef.initOnly[f] {
+		if (!ef.reach[f] && !c.Thorough) || ef.initOnly[f] {
 			continue
 		}
 		name := ssaFuncName(f)
@@ -701,6 +706,8 @@ func ruleEffect2(c *Ctx) {
 						guardedGlobals[r.obj] = true
 					}
 				}
+			case !ef.reach[f] && effect2Unreachable[name] != "":
+				c.R.OK(name, desc, pos, "frozen (thorough tier only): %s; the call graph shows it is not reachable from any compile/invoke entry", effect2Unreachable[name])
 			default:
 				c.R.Bad(name, desc, pos, "process-global state is written without synchronisation during compile/invoke: concurrent engines race on it (%s)", why)
 			}
